@@ -199,8 +199,11 @@ def _unescape_tla(s):
 
 
 def tlc(module, cfg=None, workers=None, simulate=None, depth=None, seed=None, coverage=True,
-        timeout=1500, env=None, xmx="8g", deadlock=False, dfs=False, metaname=None, extra=()):
-    """Run TLC on spec/<module>.tla with spec/<cfg>; returns TlcResult."""
+        timeout=1500, env=None, xmx="8g", deadlock=False, dfs=False, metaname=None, extra=(), dedupe_gen=False, max_gen=None):
+    """Run TLC on spec/<module>.tla with spec/<cfg>; returns TlcResult.
+
+    dedupe_gen: keep one of identical GEN lines; max_gen: keep at most that many (memory bound for large generations).
+    """
     res = TlcResult()
     cfg = cfg or (module + ".cfg")
     meta = os.path.join(BUILD, "tlc", "%s-%d-%s" % (metaname or module, os.getpid(), hashlib.md5(
@@ -245,7 +248,15 @@ def tlc(module, cfg=None, workers=None, simulate=None, depth=None, seed=None, co
     if res.violated:
         i = out.find("Error:")
         res.trace_text = out[i:i + 6000]
+    seen_gen = set()
     for m in _RE_GEN.finditer(out):
+        if max_gen is not None and len(res.gen) >= max_gen:
+            break
+        if dedupe_gen:
+            hk = hashlib.md5(m.group(1).encode()).digest()
+            if hk in seen_gen:
+                continue
+            seen_gen.add(hk)
         try:
             res.gen.append(json.loads(_unescape_tla(m.group(1))))
         except Exception as ex:   # malformed line = tooling error
